@@ -7,3 +7,15 @@ class EnvStub:
 
     def tool(self, name):
         return self._tools[name]
+
+
+class MatchStub:
+    """A match object of a two-group pattern, for interpreting a replacement function symbolically."""
+    def __init__(self, whole, g1, g2):
+        self._groups = (whole, g1, g2)
+
+    def group(self, n=0):
+        return self._groups[n]
+
+    def groups(self):
+        return self._groups[1:]
